@@ -191,9 +191,25 @@ func diffSeries(got, want []cseries) (string, string) {
 type c03Conf struct {
 	pc    proxyConf
 	batch int64
+	// stallAt > 0: the client takes three response timeouts to accept its stallAt-th frame. The frame
+	// timeout is about stores that stop sending, not about a reader that is slow to take what it gets.
+	stallAt int
+	// degraded: one store fails (fault) and the request asks for a partial response.
+	degraded bool
+	failing  int
+	fault    faultPlan
 }
 
-func (c c03Conf) String() string { return fmt.Sprintf("%s/batch=%d", c.pc, c.batch) }
+func (c c03Conf) String() string {
+	s := fmt.Sprintf("%s/batch=%d", c.pc, c.batch)
+	if c.stallAt > 0 {
+		s += fmt.Sprintf("/client-stalls-at-frame-%d", c.stallAt)
+	}
+	if c.degraded {
+		s += fmt.Sprintf("/partial-response,store#%d:%s", c.failing, c.fault)
+	}
+	return s
+}
 
 func runC03(x *simkit.Exec) {
 	ds := genDataset(x, genOpts{MaxStores: 5, MaxSeries: 12, MaxChunks: 6, MaxSamples: 12, AllowLegacy: true, ReplicaModes: []string{"none", "ext", "stored", "ext"}})
@@ -223,6 +239,20 @@ func runC03(x *simkit.Exec) {
 			c.pc.LazyBuf = x.Range("lazybuf", 1, 8)
 		}
 		c.batch = []int64{0, 1, 2, 7, 64}[x.Draw("batch", 5)]
+		if x.Bool("stall", 1, 4) {
+			c.stallAt = x.Range("stallat", 1, 4)
+		}
+		confs = append(confs, c)
+	}
+	if len(ds.Stores) > 1 && x.Bool("degraded", 1, 2) {
+		// and once more with a store that breaks off: what is returned must still have the shape above
+		c := c03Conf{pc: proxyConf{Timeout: 10 * time.Second, Lazy: x.Bool("lazy", 2, 3)}, degraded: true}
+		if c.pc.Lazy {
+			c.pc.LazyBuf = x.Range("lazybuf", 1, 8)
+		}
+		c.batch = []int64{0, 1, 2, 7}[x.Draw("batch", 4)]
+		c.failing = x.Draw("failing", len(ds.Stores))
+		c.fault = faultPlan{Mode: "fail", K: x.Draw("failk", 6)}
 		confs = append(confs, c)
 	}
 	closeFx, ok := ds.openFixtures(x)
@@ -258,7 +288,22 @@ func runC03(x *simkit.Exec) {
 			defer cancel()
 			req := &storepb.SeriesRequest{MinTime: mint, MaxTime: maxt, Matchers: matchersPB(ms...), ResponseBatchSize: conf.batch,
 				WithoutReplicaLabels: stripL, PartialResponseStrategy: storepb.PartialResponseStrategy_ABORT}
-			s.Go("client", func() { out = cl.series(ctx, req) })
+			if conf.degraded {
+				req.PartialResponseStrategy = storepb.PartialResponseStrategy_WARN
+				req.PartialResponseDisabled = false
+				cl.clients[conf.failing].setFault(conf.fault)
+			}
+			var onSend func(n int) error
+			if conf.stallAt > 0 {
+				onSend = func(n int) error {
+					if n == conf.stallAt {
+						x.Probe("c03.client_stalled")
+						time.Sleep(3 * conf.pc.Timeout)
+					}
+					return nil
+				}
+			}
+			s.Go("client", func() { out = cl.seriesWith(ctx, req, onSend) })
 			s.Loop()
 			if s.Stuck() {
 				x.Troublef("c03 conf %s: scheduler stuck, parked=%v", conf, s.ParkedIDs())
@@ -276,6 +321,12 @@ func runC03(x *simkit.Exec) {
 		sigBase := retr
 		if legacyResort {
 			sigBase += ":legacy-resort"
+		}
+		if conf.degraded {
+			if c03CheckDegraded(x, conf, cl, out, stripL, head, sigBase) {
+				return
+			}
+			continue
 		}
 		if out.Err != nil || len(out.Warnings) > 0 {
 			x.Violate("fault-free-request-succeeds", sigBase, "%sno fault was injected but err=%v warnings=%q", head, out.Err, out.Warnings)
@@ -331,4 +382,62 @@ func runC03(x *simkit.Exec) {
 	if multi > 0 {
 		x.Probe("c03.multi_chunk_series")
 	}
+}
+
+// c03CheckDegraded judges a partial response: same shape as always (sorted, every label set once, chunks
+// distinct and ordered), nothing that no store sent, and everything the healthy stores sent. Returns true
+// when it reported a violation.
+func c03CheckDegraded(x *simkit.Exec, conf c03Conf, cl *cluster, out *seriesOutcome, stripL []string, head, sigBase string) bool {
+	sigBase += ":partial"
+	if out.Err != nil {
+		// whether a request with a failing store and the WARN strategy may fail is C06's question
+		x.Probe("c03.degraded_request_failed")
+		return false
+	}
+	faulted := false
+	for _, rec := range cl.clients[conf.failing].callsOf(out.Req, "series") {
+		if rec.Faulted {
+			faulted = true
+		}
+	}
+	if faulted {
+		x.Probe("c03.degraded_store_broke_off")
+	}
+	if sg, d := checkWellFormed(out.Result, parseResultLabels(out.Srv)); sg != "" {
+		x.Violate("response-well-formed", sigBase+":"+sg, "%s%s\nresponse:\n%s", head, d, formatSeries(out.Result))
+		return true
+	}
+	got := map[string]map[string]bool{}
+	for _, s := range out.Result {
+		got[s.Lset] = map[string]bool{}
+		for _, c := range s.Chunks {
+			got[s.Lset][c.Data] = true
+		}
+	}
+	sentAll := map[string]map[string]bool{}
+	for i, c := range cl.clients {
+		sent, order := sentByStore(c, out.Req, stripL)
+		for _, l := range order {
+			if sentAll[l] == nil {
+				sentAll[l] = map[string]bool{}
+			}
+			for _, ch := range sent[l] {
+				sentAll[l][ch.Data] = true
+				if i != conf.failing && !got[l][ch.Data] {
+					x.Violate("response-is-union-of-store-streams", sigBase+":chunk-of-healthy-store-missing",
+						"%sstore #%d did not fail and sent %s chunk %s, which the response lacks\nresponse:\n%s", head, i, l, ch, formatSeries(out.Result))
+					return true
+				}
+			}
+		}
+	}
+	for l, cs := range got {
+		for d := range cs {
+			if !sentAll[l][d] {
+				x.Violate("response-is-union-of-store-streams", sigBase+":chunk-unexpected", "%sthe response holds a chunk of %s that no store sent\nresponse:\n%s", head, l, formatSeries(out.Result))
+				return true
+			}
+		}
+	}
+	return false
 }
